@@ -24,11 +24,32 @@ def DirFact (toks : Array SpTok) : Directive → Prop
   | .orig _ => True
   | .end_ => True
 
+/-- label operands -/
+def PCOff.labels {n : Nat} : PCOff n → List Label
+  | .label l => [l]
+  | .off _ => []
+
+def AsmInstr.labelOps : AsmInstr → List Label
+  | .br _ o => o.labels
+  | .jsr o => o.labels
+  | .ld _ o => o.labels
+  | .ldi _ o => o.labels
+  | .lea _ o => o.labels
+  | .st _ o => o.labels
+  | .sti _ o => o.labels
+  | .nop o => o.labels
+  | _ => []
+
 def KindFact (toks : Array SpTok) : StmtKind → Prop
   | .directive d => DirFact toks d
-  | .instr _ => True
+  | .instr i => ∀ l ∈ i.labelOps, LabTok toks l
 
-def StmtFact (toks : Array SpTok) (s : Stmt) : Prop := (∀ l ∈ s.labels, LabTok toks l) ∧ KindFact toks s.nucleus
+/-- the span of a statement runs from the start of one token to the end of the same or a later token -/
+def SpanFact (toks : Array SpTok) (sp : Nat × Nat) : Prop :=
+  ∃ (i j : Nat) (t te : SpTok), i ≤ j ∧ toks[i]? = some t ∧ toks[j]? = some te ∧ sp = (t.start, te.stop)
+
+def StmtFact (toks : Array SpTok) (s : Stmt) : Prop :=
+  (∀ l ∈ s.labels, LabTok toks l) ∧ KindFact toks s.nucleus ∧ SpanFact toks s.span
 
 theorem peek_mem (p : Parser) (t : SpTok) (h : p.peek = some t) : t ∈ p.toks.toList := by
   unfold peek at h
@@ -50,6 +71,130 @@ theorem tokOf_mem (p : Parser) (k : Token) (h : tokOf p = some k) : ∃ t ∈ p.
     rw [hp] at h
     simp only [Option.map_some, Option.some.injEq] at h
     exact ⟨t, peek_mem p t hp, h⟩
+
+/-! ### a result-aware calculus: the label operands of whatever a sub-parser returns are label tokens -/
+
+class HasLabs (α : Type) where
+  labs : α → List Label
+instance (n : Nat) : HasLabs (PCOff n) := ⟨PCOff.labels⟩
+instance (n : Nat) : HasLabs (BitVec n) := ⟨fun _ => []⟩
+instance (n : Nat) : HasLabs (ImmOrReg n) := ⟨fun _ => []⟩
+instance : HasLabs AsmInstr := ⟨AsmInstr.labelOps⟩
+
+def LOk {α : Type} [HasLabs α] (toks : Array SpTok) (r : PRes (α × Parser)) : Prop :=
+  match r with
+  | .error _ => True
+  | .ok (a, p') => p'.toks = toks ∧ ∀ l ∈ HasLabs.labs a, LabTok toks l
+def LOkP (toks : Array SpTok) (r : PRes Parser) : Prop :=
+  match r with
+  | .error _ => True
+  | .ok p' => p'.toks = toks
+
+theorem LOk_bind {α β : Type} [HasLabs α] [HasLabs β] (toks : Array SpTok) (m : PRes (α × Parser)) (f : α × Parser → PRes (β × Parser))
+    (hm : LOk toks m) (hf : ∀ a p', p'.toks = toks → (∀ l ∈ HasLabs.labs a, LabTok toks l) → LOk toks (f (a, p'))) :
+    LOk toks (m >>= f) := by
+  cases m with
+  | error e => trivial
+  | ok x => obtain ⟨a, p'⟩ := x; exact hf a p' hm.1 hm.2
+
+theorem LOkP_bind {β : Type} [HasLabs β] (toks : Array SpTok) (m : PRes Parser) (f : Parser → PRes (β × Parser))
+    (hm : LOkP toks m) (hf : ∀ p', p'.toks = toks → LOk toks (f p')) : LOk toks (m >>= f) := by
+  cases m with
+  | error e => trivial
+  | ok p' => exact hf p' hm
+
+section
+variable (toks : Array SpTok)
+
+theorem parseReg_lok (p : Parser) (h : p.toks = toks) : LOk toks (parseReg p) := by
+  unfold parseReg
+  split
+  · split
+    · exact ⟨h, fun l hl => by cases hl⟩
+    · trivial
+  · trivial
+
+theorem parseComma_lok (p : Parser) (h : p.toks = toks) : LOkP toks (parseComma p) := by
+  unfold parseComma
+  split
+  · exact h
+  · trivial
+
+theorem parseSOff_lok (n : Nat) (p : Parser) (h : p.toks = toks) : LOk toks (parseSOff n p) := by
+  unfold parseSOff
+  split
+  · split
+    · exact ⟨h, fun l hl => by cases hl⟩
+    · trivial
+    · trivial
+  · trivial
+
+theorem parseUOff_lok (n : Nat) (p : Parser) (h : p.toks = toks) : LOk toks (parseUOff n p) := by
+  unfold parseUOff
+  split
+  · split
+    · exact ⟨h, fun l hl => by cases hl⟩
+    · trivial
+    · trivial
+  · trivial
+
+theorem parseImmOrReg_lok (n : Nat) (p : Parser) (h : p.toks = toks) : LOk toks (parseImmOrReg n p) := by
+  unfold parseImmOrReg
+  split
+  · split
+    · exact ⟨h, fun l hl => by cases hl⟩
+    · trivial
+    · split
+      · split
+        · exact ⟨h, fun l hl => by cases hl⟩
+        · trivial
+      · trivial
+  · trivial
+
+theorem parsePCOff_lok (n : Nat) (p : Parser) (h : p.toks = toks) : LOk toks (parsePCOff n p) := by
+  unfold parsePCOff
+  split
+  · split
+    · exact ⟨h, fun l hl => by cases hl⟩
+    · trivial
+    · split
+      · rename_i l0 hl0
+        refine ⟨h, fun l hl => ?_⟩
+        have : l = l0 := by simpa [HasLabs.labs, PCOff.labels] using hl
+        subst this
+        exact h ▸ labelOf_tok p l hl0
+      · trivial
+  · trivial
+
+end
+
+macro "lok_step" : tactic => `(tactic| first
+  | exact ⟨by assumption, by assumption⟩
+  | exact ⟨by assumption, by intro l hl; cases hl⟩
+  | exact parseReg_lok _ _ (by assumption)
+  | exact parseSOff_lok _ _ _ (by assumption)
+  | exact parseUOff_lok _ _ _ (by assumption)
+  | exact parseImmOrReg_lok _ _ _ (by assumption)
+  | exact parsePCOff_lok _ _ _ (by assumption)
+  | exact parseComma_lok _ _ (by assumption)
+  | (apply LOk_bind)
+  | (apply LOkP_bind)
+  | (intro a p' hp' ha; try dsimp only)
+  | (intro p' hp'; try dsimp only)
+  | trivial)
+
+theorem parseInstr_lok (toks : Array SpTok) (p : Parser) (h : p.toks = toks) : LOk toks (parseInstr p) := by
+  have ha : p.advance.toks = toks := h
+  unfold parseInstr
+  split
+  · rename_i k _ _ _
+    dsimp only
+    split
+    · repeat lok_step
+    · cases k <;> dsimp only <;> try (repeat lok_step)
+      -- NOP
+      split <;> repeat lok_step
+  · trivial
 
 theorem parseDirective_fact (p : Parser) (d : Directive) (p' : Parser) (h : parseDirective p = .ok (d, p')) :
     DirFact p.toks d := by
@@ -119,9 +264,10 @@ theorem parseNucleus_fact (p : Parser) (last : Option (Nat × Nat)) (k : StmtKin
       exact parseDirective_fact p d _ hd
   · rename_i w hw
     refine ⟨?_, hpk _ hw⟩
+    have hlok := parseInstr_lok p.toks p rfl
     cases hd : parseInstr p with
     | error e => rw [hd] at h; cases h
-    | ok x => rw [hd] at h; obtain ⟨d, q⟩ := x; cases h; trivial
+    | ok x => rw [hd] at h hlok; obtain ⟨d, q⟩ := x; cases h; exact hlok.2
   · cases h
 
 theorem skipColon_toks (p : Parser) : (skipColon p).toks = p.toks := by
@@ -189,6 +335,19 @@ theorem parseStmt_spec (toks : Array SpTok) (p : Parser) (s : Stmt) (p'' : Parse
     obtain ⟨h2t, h2i, h2s⟩ := hi'
     have hcur : p1.cursor.1 = t.start := by unfold cursor; rw [ht]
     have hti : toks[p1.idx]? = some t := by unfold peek at ht; rw [h1t] at ht; exact ht
+    have hlt1 : p1.idx < toks.size := (Array.getElem?_eq_some_iff.mp hti).1
+    have hstrict : IdxGe toks (p1.idx + 1) p' := by
+      have hadv1 : IdxGe toks (p1.idx + 1) p1.advance := by
+        refine ⟨h1t, ?_, ?_⟩
+        · show p1.idx + 1 ≤ min (p1.idx + 1) p1.toks.size; rw [h1t]; omega
+        · show min (p1.idx + 1) p1.toks.size ≤ toks.size; rw [h1t]; omega
+      have := parseNucleus_aok' (IdxGe toks (p1.idx + 1)) (IdxGe.adv toks (p1.idx + 1)) p1 last hadv1
+      rw [hn] at this; exact this
+    have hspan : SpanFact toks (p1.cursor.1, match p'.toks[p'.idx - 1]? with | some t => t.stop | none => p1.cursor.1) := by
+      have hlt : p'.idx - 1 < toks.size := by have := hstrict.2.1; omega
+      have hte : toks[p'.idx - 1]? = some toks[p'.idx - 1] := Array.getElem?_eq_getElem hlt
+      rw [h2t, hte]
+      exact ⟨p1.idx, p'.idx - 1, t, _, by have := hstrict.2.1; omega, hti, hte, by rw [hcur]⟩
     have hadv : IdxGe toks p'.idx p'.advance := IdxGe.adv toks p'.idx p' ⟨h2t, Nat.le_refl _, h2s⟩
     have hfin : ∀ q, q = skipNewlines (p'.toks.size + 1) p'.advance → q.toks = toks ∧ q.idx ≤ toks.size := by
       intro q hq
@@ -208,7 +367,7 @@ theorem parseStmt_spec (toks : Array SpTok) (p : Parser) (s : Stmt) (p'' : Parse
       rw [hq] at hpe2
       obtain ⟨ft, fi⟩ := hfin p'' hq.symm
       refine ⟨?_, ft, fi, p1.idx, t, h1i, hti, ?_, Or.inl (isEmpty_of_ge p'' (by rw [hpe2.1]; exact hpe2.2))⟩
-      · rw [← hs]; exact ⟨hl, h1t ▸ hk⟩
+      · rw [← hs]; exact ⟨hl, h1t ▸ hk, hspan⟩
       · rw [← hs]; exact hcur
     · -- newline
       rename_i hnl
@@ -230,7 +389,7 @@ theorem parseStmt_spec (toks : Array SpTok) (p : Parser) (s : Stmt) (p'' : Parse
       have hsk := skipNewlines_p (IdxGe toks (p'.idx + 1)) (IdxGe.adv toks (p'.idx + 1)) (p'.toks.size + 1) p'.advance hadv1
       rw [hq] at hsk
       refine ⟨?_, ft, fi, p1.idx, t, h1i, hti, ?_, Or.inr ⟨p'.idx, tn, h2i, htn, htk, hsk.2.1⟩⟩
-      · rw [← hs]; exact ⟨hl, h1t ▸ hk⟩
+      · rw [← hs]; exact ⟨hl, h1t ▸ hk, hspan⟩
       · rw [← hs]; exact hcur
     · cases h
 
